@@ -74,6 +74,9 @@ class _Task(DebugContents, Logging):
 
         # pass along to the task manager
         if not _task_manager:
+            # installing it again moves it, it is not in the list twice
+            if self in _unscheduled_tasks:
+                _unscheduled_tasks.remove(self)
             _unscheduled_tasks.append(self)
         else:
             _task_manager.install_task(self)
@@ -194,6 +197,9 @@ class RecurringTask(_Task):
         # if there is no task manager, postpone the install
         if not _task_manager:
             if _debug: RecurringTask._debug("    - no task manager")
+            # installing it again moves it, it is not in the list twice
+            if self in _unscheduled_tasks:
+                _unscheduled_tasks.remove(self)
             _unscheduled_tasks.append(self)
 
         else:
